@@ -38,6 +38,7 @@ type Canon struct {
 	idxLoops   map[types.Object]ast.Expr // loop counters -> the collection they count through
 	rangeVals  map[types.Object]ast.Expr // range value variables -> the collection
 	loopsDone  bool
+	tupleCand  map[types.Object]bool
 	isLit      bool
 	body       *ast.BlockStmt
 	inlBodies  []ast.Node
@@ -175,6 +176,9 @@ func (c *Canon) AddInlined(body *ast.BlockStmt, inl []*InlinedCall, alias map[ty
 			if id, ok := ast.Unparen(l).(*ast.Ident); ok {
 				if o := c.Info.ObjectOf(id); o != nil {
 					_, wasSingle := c.obsCand[o]
+					if c.tupleCand[o] {
+						wasSingle = true
+					}
 					delete(c.expand, o)
 					delete(c.obsCand, o)
 					delete(c.tuple, o)
@@ -451,8 +455,12 @@ func (c *Canon) scanLocals(body *ast.BlockStmt) {
 			c.expand[o] = e
 		} else if ok {
 			c.obsCand[o] = e
+		} else if _, isTup := tup[o]; isTup {
+			if c.tupleCand == nil {
+				c.tupleCand = map[types.Object]bool{}
+			}
+			c.tupleCand[o] = true // defined once, by one result of a call: single once a spliced helper has one return
 		}
-		_ = tup
 	}
 }
 
